@@ -480,13 +480,13 @@ class Check(PropertyCheck):
                 "LLBuild.BuildDB.C03_read_your_writes_seq", "LLBuild.BuildDB.C03_lock_step", "LLBuild.BuildDB.C03_single_writer",
                 "LLBuild.BuildDB.C03_other_writers_refused"]
     extractors = ["x_sqlitedb"]
-    harnesses = [("vc03", "plain")]
+    harnesses = [("vc03", "plain"), ("vengine", "plain")]
     assumptions = [
         "SQLite: a transaction (BEGIN EXCLUSIVE .. END) is atomic and durable; an EXCLUSIVE lock excludes every other connection; rowid allocation is max+1; type affinity follows datatype3.html (the affinity function is corresponded against the real library, not proved)",
         "the engine's key table (BuildDBDelegate) is a bijection key <-> KeyID stable for the life of the BuildDB object (the model uses the key bytes as KeyID)",
         "not modelled (generator keeps away, see notes): a BuildDB object used again after open() failed on a lock (half-open state), and a connection left open on a file that another client version unlinks and recreates (orphaned inode)",
         "hand model of SQLiteBuildDB tied by extractor x_sqlitedb (DDL, SQL text, bind/column wiring, codec constants, version gate, brackets) and by differential correspondence of op histories",
-        "engine-level clauses (restart-split = single-engine execution) are decided elsewhere on the engine model",
+        "engine-level clause (restart-split = single-engine execution): proved on the engine model as part of C01/C04 (restart events in every history); here the real engine runs every generated history twice, in one engine and with a restart at every build boundary (stream restart-split)",
     ]
     trusted_base = ["extractor x_sqlitedb", "correspondence harness vc03 (db, affinity, merged) and its generators",
                     "python oracle Spec (independent restatement: durable map key -> result, version gate, one writer)"]
@@ -625,7 +625,11 @@ class Check(PropertyCheck):
         self.stream_db(ctx, res)
         self.stream_affinity(ctx, res)
         self.stream_merged(ctx, res)
-        res.rule = ("db: op histories on the real BuildDB and on the model, compared line by line (structured histories: processes come and go, "
+        from .engine_common import EngineCheck
+        ec = EngineCheck(); ec.prop = "C03"
+        ec.run_restart_split(ctx, res, 600 if ctx.thorough else 120)
+        res.rule = ("restart-split: generated engine histories executed in one engine and with a restart at every build boundary, results and "
+                    "executed sets compared. " + "db: op histories on the real BuildDB and on the model, compared line by line (structured histories: processes come and go, "
                     "builds commit/crash, client versions differ, second writer knocks, a BuildDB object outlives a recreate; plus unstructured op "
                     "sequences); the python Spec states what the property demands for every lookup/keys/epoch/gate outcome of the structured "
                     "histories. Non-trivial (db) = a lookup/keys that returned stored data which the Spec then checked. affinity: (declared type, "
